@@ -1,5 +1,3 @@
-//go:build v2
-
 package main
 
 import (
@@ -81,7 +79,9 @@ func c11ServerProbe(dirs []string, doc string, legal bool, feat string, cs map[s
 	}
 	s := c11ServerFor(name)
 	if s == nil {
-		violation("C11/server/no-such-resource/"+name, "generated bindings lack resource "+name, nil)
+		if !c11ResourceLeftOut[name] {
+			violation("C11/server/no-such-resource/"+name, "generated bindings lack resource "+name, nil)
+		}
 		return
 	}
 	type probe struct{ kind, target, method, body string }
